@@ -139,8 +139,8 @@ func yamlFormEval(e *Env, c yamlFormCase) {
 	e.R.Outcome(c.Variant.Name)
 }
 
-// runYAMLForms: three pieces (all settings; the periodic long piece; in thorough 1100 instances, a
-// one-line document of more than 64 kB) x every spelling x {in-process, real binary}.
+// runYAMLForms: three pieces (all settings; the periodic long piece; 1500 instances: a one-line
+// document of more than 64 kB) x every spelling x {in-process, real binary}.
 func runYAMLForms(e *Env, prop string) {
 	short := []refplay.Inst{
 		c07Inst(0, false, [7]bool{true, true, true, true, true, true, true}),
@@ -151,7 +151,7 @@ func runYAMLForms(e *Env, prop string) {
 		{Values: one()},
 	}
 	var long130, long1100 []refplay.Inst
-	for i := 0; i < 1100; i++ {
+	for i := 0; i < 1500; i++ {
 		in := longBase(i)
 		if i == 77 {
 			in = longDeviate(in, "key")
@@ -180,5 +180,5 @@ func runYAMLForms(e *Env, prop string) {
 		e.R.Trace(1)
 	})
 	e.R.NonTrivialN(int64(len(cases)))
-	e.R.AddPart(ev.Part{Name: "yaml-spellings-of-a-piece", Enumerated: fmt.Sprintf("3 pieces (6 instances with every setting; 130 periodic instances; 1100 instances = a one-line document of more than 64 kB) x 12 YAML spellings (repeated instances as aliases, one-line flow/JSON style, flow per line, block list of flow mappings, comments, document markers, YAML directive, byte-order mark, CR LF, no final newline, blank lines, deeper indentation) x {in-process, real binary} x --track {1,3}: the file of the plain spelling (%d runs)", len(cases)), Executions: int64(len(cases)), Exhaustive: true})
+	e.R.AddPart(ev.Part{Name: "yaml-spellings-of-a-piece", Enumerated: fmt.Sprintf("3 pieces (6 instances with every setting; 130 periodic instances; 1500 instances = a one-line document of 85 kB) x 12 YAML spellings (repeated instances as aliases, one-line flow/JSON style, flow per line, block list of flow mappings, comments, document markers, YAML directive, byte-order mark, CR LF, no final newline, blank lines, deeper indentation) x {in-process, real binary} x --track {1,3}: the file of the plain spelling (%d runs)", len(cases)), Executions: int64(len(cases)), Exhaustive: true})
 }
